@@ -9,6 +9,8 @@ CLAIMED = {
  "C03": ("TREE x TREE at exact rational scalar (prefix.suffix vs fresh instance on the suffix) + f64 CLOSURE single-valuedness of last-K-inputs -> output", "2.C03"),
  "C04": ("TREE at exact rational scalar with lockstep affine images and perturbed twins; constant streams", "2.C04"),
  "C14": ("TREE with lockstep stand-alone children, bit-exact pointwise oracle", "2.C14"),
+ "C15": ("TREE over update letters with last() at every state, cyclic/constant extensions for long windows, all two-level chains; run under two build profiles (release; debug assertions + overflow checks)", "2.C15"),
+ "C17": ("TREE + CLOSURE: at every node last() purity, clone-at-birth equality, clone independence, clone/original agreement per continuation letter, fresh-twin replay; state identity = derived Debug", "2.C17"),
  "C18": ("exhaustive cycle drivers: scalar-slot count of the real structs' Debug rendering + counting global allocator at L and 4L", "2.C18"),
  "C11": ("TREE at f64/Q + exhaustive cycle drivers vs from-scratch batch evaluation of the difference equations", "2.C11"),
 }
